@@ -180,3 +180,16 @@ def repo_source(rel):
 
 def eprint(*a):
     print(*a, file=sys.stderr)
+
+
+def pmap(func, jobs, procs=None, chunksize=64):
+    """run func over jobs in a fork pool (results in input order); falls back to serial for tiny inputs"""
+    import multiprocessing as mp
+
+    jobs = list(jobs)
+    procs = procs or min(16, os.cpu_count() or 1)
+    if len(jobs) < 2 * chunksize or procs <= 1:
+        return [func(j) for j in jobs]
+    ctx = mp.get_context("fork")
+    with ctx.Pool(procs) as pool:
+        return pool.map(func, jobs, chunksize=chunksize)
